@@ -13,8 +13,8 @@ def shipped_params(cls, rnd, extreme=False):
     if cls == 'SIRS': return {SIR.P_INFECTED: 0.25, SIR.P_INFECT: p(), SIR.P_REMOVE: p(), SIRS.P_RESUSCEPT: p()}
     if cls == 'SEIR': return {SEIR.P_EXPOSED: 0.25, SEIR.P_INFECT_ASYMPTOMATIC: p(), SEIR.P_INFECT_SYMPTOMATIC: p(),
                               SEIR.P_SYMPTOMS: p(), SEIR.P_REMOVE: p()}
-    if cls == 'SIR_FixedRecovery': return {SIR.P_INFECTED: 0.25, SIR.P_INFECT: p(), SIR_FixedRecovery.T_INFECTED: rnd.choice([0.5, 1.0, 1.75, 2.5])}
-    if cls == 'SIS_FixedRecovery': return {SIS.P_INFECTED: 0.25, SIS.P_INFECT: p(), SIS_FixedRecovery.T_INFECTED: rnd.choice([0.5, 1.0, 1.75, 2.5])}
+    if cls == 'SIR_FixedRecovery': return {SIR.P_INFECTED: 0.25, SIR.P_INFECT: p(), SIR_FixedRecovery.T_INFECTED: rnd.choice([0.5, 1.0, 1.75, 2.5, 1.0 + 1e-10, 2.0 - 1e-10])}
+    if cls == 'SIS_FixedRecovery': return {SIS.P_INFECTED: 0.25, SIS.P_INFECT: p(), SIS_FixedRecovery.T_INFECTED: rnd.choice([0.5, 1.0, 1.75, 2.5, 1.0 + 1e-10, 2.0 - 1e-10])}
     if cls == 'Opinion': return {Opinion.P_AFFECTED: 0.25, Opinion.P_AFFECT: p(), Opinion.P_STIFLE: p()}
     if cls == 'SIR_VariableInfection': return {SIR.P_INFECTED: 0.25, SIR.P_REMOVE: p()}
     if cls == 'VarInfFixed': return {SIR.P_INFECTED: rnd.choice([0.25, 0.5]), SIR.P_REMOVE: 0.0, VarInfFixed.T: rnd.choice([0.25, 0.5, 1.0, 1.75])}
@@ -366,6 +366,9 @@ def gen_script_queue(rnd, dyn=None):
     ncomp = 2
     nh = rnd.randint(3, 6)
     times = [0.0, 0.5, 1.0, 1.0, 1.5, 2.0, 2.0, 2.5, 3.0, 4.0]
+    if rnd.random() < 0.3:      # times a hair after / before a whole timestep: where 'due by t' is decided exactly, not within a tolerance
+        import math
+        times = times + [1.0 + 1e-10, 2.0 + 1e-10, math.nextafter(1.0, 2.0), math.nextafter(2.0, 0.0), 3.0 - 1e-10, 1e-12]
     handlers = []
     for h in range(nh):
         acts = []
